@@ -8,6 +8,8 @@
 #include <sstream>
 #include <vector>
 
+#include "../common/verif_trace.h"
+
 template <typename T>
 class Vector
 {
@@ -78,6 +80,7 @@ Vector<T>::Vector(const Vector& other)
 template <typename T>
 Vector<T>& Vector<T>::operator=(const Vector& other)
 {
+    VERIF_TRACE("copy", -1, this, &other);
     if (this == &other) {
         /* Self-assignment, no work needed */
         return *this;
